@@ -300,6 +300,17 @@ func vConcreteClock(stepNs int64) {}
 // mutexes (those of the objects the goroutines share).
 func vPreemptOn(mu interface{}) {}
 func vJoin()                {}
+
+// vPreemptAtChans(n): under the engine every channel send / receive / close,
+// every select and every sync.Map operation made while another goroutine of
+// the harness could run becomes a scheduling decision - go on, or hand over to
+// one of the others - with at most n preemptions per path; a select with
+// several ready cases forks over the case taken. vSettle(): let the other
+// goroutines run until nobody can make progress (model timers fire when
+// everybody is blocked). Natively both do nothing: a harness that uses them
+// is confirmed through its stress function.
+func vPreemptAtChans(n int) {}
+func vSettle()              {}
 func vStressFail(msg string) {
 	fmt.Println("VERIF-STRESS-FAIL: " + msg)
 	panic("VERIF-STRESS-FAIL: " + msg)
